@@ -118,6 +118,14 @@ def gen_op(rng, name, npool, opts):  # pylint: disable=too-many-branches,too-man
             'do_fsync': rng.choice(opts['do_fsync']),
             'seed': rng.randrange(1 << 20),
         }
+    if name == 'read':
+        return {
+            'op': name,
+            'keys': [rng.randrange(64) for _ in range(rng.choice([1, 2, 3, 5]))],
+            'how': rng.choice(['single', 'bulk', 'meta', 'stream', 'stream']),
+            'skip': rng.random() < 0.5,
+            'chunk': rng.choice([1, 100, 1000, 65536]),
+        }
     if name == 'reopen':
         return {'op': name}
     if name in ('reinit', 'reinit_clear'):
